@@ -135,6 +135,8 @@ pub fn generate(g: &mut Gen, thorough: bool) {
         // ... nor on which grid of a list served the line before
         ("geo:in | gridshift grids=test_subset.datum, test.datum", "55 12\n55.97 11.33\n55.5 12.5\n55.97 11.33\n56.2 11.1\n54.9 9\n55.97 11.33\n"),
         ("geo:in | gridshift grids=test_subset.datum, test.datum | geo:out", "55.97 11.33\n55 12\n55.97 11.33\n"),
+        // ... nor on the epoch of the line before (each line has its own time column)
+        ("geo:in | cart | deformation t_epoch=2000 grids=test.deformation | cart inv | geo:out", "56 13 10 2020\n56 13 10 2010\n55.5 12 0 2035.5\n56 13 10 2020\n57 14 100 2000\n"),
         // a hemisphere letter goes with plain numbers too
         ("geo:in | utm zone=32", "55.5N 9.25E\n33.5S 9E\n3n 12.75e\n55:30N 12\n"),
         ("addone", "33.5S 9.25W\n3w 4s 5 6\n"),
